@@ -342,6 +342,12 @@ func (s *state) visitPrint(node *ast.PrintNode) {
 		switch dir.Name {
 		case "id", "noAutoescape":
 			// no implementation, they just serve as a marker to cancel autoescape.
+		case "insertWordBreaks", "changeNewlineToBr":
+			// these add markup, so they cancel autoescaping of their result, but
+			// the text they work on must be escaped (as the html backend does):
+			// the soyutils functions do not escape.
+			directives = append(directives, &ast.PrintDirectiveNode{0, "escapeHtml", nil})
+			fallthrough
 		default:
 			directives = append(directives, dir)
 			if impt := s.options.Formatter.Directive(directive); impt != "" {
@@ -349,18 +355,18 @@ func (s *state) visitPrint(node *ast.PrintNode) {
 			}
 		}
 	}
+	// the directives apply in the order written, then the autoescaping.
 	if escape != ast.AutoescapeOff {
-		directives = append([]*ast.PrintDirectiveNode{{0, "escapeHtml", nil}}, directives...)
+		directives = append(directives, &ast.PrintDirectiveNode{0, "escapeHtml", nil})
 	}
 
 	s.indent()
 	s.js(s.bufferName, " += ")
-	for _, dir := range directives {
-		s.js(PrintDirectives[dir.Name].Name, "(")
+	for i := range directives {
+		s.js(PrintDirectives[directives[len(directives)-1-i].Name].Name, "(")
 	}
 	s.walk(node.Arg)
-	for i := range directives {
-		var dir = directives[len(directives)-1-i]
+	for _, dir := range directives {
 		for _, arg := range dir.Args {
 			s.js(",")
 			s.walk(arg)
